@@ -792,3 +792,98 @@ def judge_hints(meta, impl):
         if not want and 'text-align' in impl:
             return f'<{tag} align="{attrs.get("align")}"> gives {impl}; no text-align hint is defined for that value'
     return None
+
+
+# ---------------------------------------------------------------------------------------------
+# CSS-wide keywords at the entrance of the cascade vs lean/WpModel/Model/CssWide.lean
+
+SPELLINGS = {'inherit': ['inherit', 'INHERIT', 'Inherit', 'iNhErIt'], 'initial': ['initial', 'INITIAL', 'Initial', 'inItial']}
+NOT_CSS_WIDE = ['inherits', 'initia', 'unset-x']
+
+
+def preprocessed(text):
+    import tinycss2
+    from weasyprint.css.validation import preprocess_declarations
+    return list(preprocess_declarations('http://mem/', tinycss2.parse_blocks_contents(text)))
+
+
+def css_wide_out(result):
+    values = {str(v) for _, v, _ in result}
+    if result and len(values) == 1 and values <= {'inherit', 'initial'}:
+        return ';'.join(f'{n}={v}' for n, v, _ in result)
+    return 'not-css-wide'
+
+
+def css_wide_names():
+    """Every shorthand of the real registry and every longhand the validators know, as written in CSS."""
+    from weasyprint.css.properties import INITIAL_VALUES
+    from weasyprint.css.validation.expanders import EXPANDERS
+    return sorted(EXPANDERS) + [k.replace('_', '-') for k in INITIAL_VALUES]
+
+
+def css_wide_section(run):
+    sec = run.section(
+        'css-wide-keywords',
+        'fixed family, run first: every shorthand of EXPANDERS and every longhand of INITIAL_VALUES x {inherit, initial} x '
+        'four spellings (lower, UPPER, Capitalised, mIxEd; CSS keywords are ASCII case-insensitive) x with / without '
+        '!important, and three idents that are not CSS-wide keywords: the (longhand, value) pairs the real '
+        'preprocess_declarations yields vs Model/CssWide.lean given the longhand names of the lower-case spelling; '
+        'non-trivial = the spelling is not the lower-case one')
+    for name in css_wide_names():
+        for kw, spellings in SPELLINGS.items():
+            base = preprocessed(f'{name}: {kw}')
+            longhands = [n for n, _, _ in base]
+            if not longhands:
+                continue                    # not a property name of the validators (internal keys)
+            for spelling in spellings + (NOT_CSS_WIDE if kw == 'inherit' else []):
+                for important in ('', ' !important'):
+                    if important and spelling not in (kw, kw.upper()):
+                        continue
+                    out = css_wide_out(preprocessed(f'{name}: {spelling}{important}'))
+                    sec.add(sx.line('csswide', longhands, w_text(spelling)), out,
+                            meta={'name': name, 'spelling': spelling, 'important': bool(important), 'keyword': kw,
+                                  'signature': f'csswide:{name}:{spelling}'},
+                            nontrivial=spelling != kw,
+                            tags=['shorthand' if len(longhands) > 1 else 'longhand', spelling])
+
+
+def css_wide_demo(name, spelling, kw):
+    """A document showing the effect on box.style, when the harness has a sample value for the property."""
+    from harness import cascade_docs
+    samples = [v for v in cascade_docs.DECLS.get(name, []) + VAR_DECLS.get(name, []) if v not in ('inherit', 'initial')]
+    if not samples:
+        return ''
+    def styles(text):
+        html = f'<div style="{name}:{samples[-1]}"><p id=x style="{name}:{text}">t</p></div>'
+        document = docs.render(html)
+        keys = [n for n, _, _ in preprocessed(f'{name}: {kw}')]
+        for label, style in styles_of(document):
+            if label == 'p#x':
+                return html, ' '.join(f'{k}={canon(style[k])}' for k in keys)
+        return html, '?'
+    try:
+        html, got = styles(spelling)
+        _, want = styles(kw)
+    except Exception as exc:  # noqa: BLE001
+        return f'; rendering the demonstration raised {type(exc).__name__}'
+    return f'; {html}: box.style of the <p> is {got}, with "{kw}" it is {want}' if got != want else ''
+
+
+def judge_css_wide(meta, impl, model):
+    name, spelling, kw = meta['name'], meta['spelling'], meta['keyword']
+    if impl == model:
+        return None
+    if model == 'not-css-wide':
+        return f'"{name}: {spelling}" is preprocessed to {impl}: {spelling!r} is not a CSS-wide keyword'
+    return (f'"{name}: {spelling}{" !important" if meta["important"] else ""}" is preprocessed to {impl}; CSS keywords are ASCII '
+            f'case-insensitive, the declaration is "{name}: {kw}": {model}' + css_wide_demo(name, spelling, kw))
+
+
+def replay_css_wide(meta):
+    name, spelling, kw = meta['name'], meta['spelling'], meta['keyword']
+    impl = css_wide_out(preprocessed(f'{name}: {spelling}{" !important" if meta["important"] else ""}'))
+    if spelling.lower() == kw:
+        model = css_wide_out(preprocessed(f'{name}: {kw}'))
+    else:
+        model = 'not-css-wide'
+    return judge_css_wide(meta, impl, model)
